@@ -23,7 +23,6 @@ rationals; table of algebraic identities for rational results) + vlib.oracle_rou
 from __future__ import annotations
 
 import math
-import random
 from fractions import Fraction
 
 import fpy2 as fp
@@ -71,8 +70,9 @@ ASSUMPTIONS = [
     'atan2 with both operands zero and pow(0, 0) are treated as outside the domain.',
 ]
 EXHAUSTIVE = {'quick': False, 'thorough': False}
-FLOORS = {'hard': 0.01, 'exact': 0.01, 'path:float-sub': 0.01, 'path:fixed-2pass': 0.02, 'path:fixed-1pass': 0.004,
-          'const': 0.02, 'hyp': 0.01}
+# generator-health floors: fractions of the evaluations (absolute counts when >= 1)
+FLOORS = {'hard': 0.05, 'exact': 0.03, 'exact-representable': 0.02, 'path:float-sub': 0.05, 'path:fixed-2pass': 0.05,
+          'path:fixed-1pass': 0.01, 'rounds-to-zero': 0.01, 'overflow': 0.003, 'const': 90000, 'hyp': 0.02, 'layer:carrier': 5000}
 
 UN = E.UNARY
 BIG_P = (80, 113, 128, 200, 237, 300, 400)
@@ -934,7 +934,7 @@ def run_misc(res, fname, tier):
                     continue
             if carrier in ('int', 'Fraction') and NZERO in dens:
                 continue
-            t = Truth(fname, tuple(PZERO if (d == NZERO and carrier != 'float') else d for d in dens))
+            t = Truth(fname, dens)
             for f in (fmt('mp', 7), fmt('ieee', 5, 16, overflow='OVERFLOW'), fmt('mpfixed', -9)):
                 check_group(res, f, t, ident_fn(fname, dens, carrier), classes=('layer:carrier',), modes=('RNE', 'RTP', 'RTZ', 'RTO'))
 
@@ -1161,9 +1161,6 @@ def run_shard(shard):
         run_const(res, shard[1], shard[2], shard[3])
     elif k == 'hyp':
         run_hyp(res, shard[1], shard[2], shard[3])
-        import os
-        if os.environ.get('C03_DEBUG'):
-            res.count('dbg:hyp%02d:%d:%d' % (shard[1], res.evaluations, res.distinct_nontrivial))
     else:
         raise ValueError(shard)
     return res
